@@ -1,8 +1,8 @@
 SPECIFICATION Spec
 CONSTANTS
-  NStages = 5
-  NItems = 5
-  MaxFail = 2
+  NStages = 4
+  NItems = 4
+  MaxFail = 1
   CancelFirst = FALSE
 INVARIANTS InOrder StageOrder SingleOwner BoundedLead NoLossNoDup ErrorIsReal SuccessOnlyIfNoFailure NoWorkAfterExit
 PROPERTY Termination
